@@ -21,7 +21,7 @@ THEOREMS = [
     "C20.connect_spec", "C20.scpFrom_spec", "C20.copy_spec", "C20.run_spec",
     "C20.connect_canon", "C20.scpFrom_canon", "C20.copy_by_role", "C20.copy_to_remote_canon",
     "C20.copy_from_remote_canon", "C20.copy_same_machine", "C20.copy_unsupported",
-    "C20.refused_authenticator", "C20.count_batchMode", "C20.count_noHostKey", "C20.count_ctlMaster",
+    "C20.refused_authenticator", "C20.connect_refused", "C20.count_batchMode", "C20.count_noHostKey", "C20.count_ctlMaster",
     "C20.controlPath_mem", "C20.spec_parsed_params",
 ]
 QUICK_N, THOROUGH_N = 14000, 90000
@@ -114,7 +114,7 @@ def unhx(s):
 
 
 def opt(v, f=str):
-    return "_" if v is None else f(v)
+    return "" if v is None else f(v)
 
 
 def lst(items):
@@ -124,7 +124,7 @@ def lst(items):
 
 def auth_tok(a):
     if a is None:
-        return "_"
+        return ""
     if a[0] in ("n", "u"):
         return a[0]
     if a[0] == "t":
@@ -354,11 +354,11 @@ def classify(line, obs):
     for t in toks[2:]:
         f = t.split("/")
         if f[0] == "H" and f[1] in "sp":
-            ks.append("auth=" + f[10].split(":")[0])
-            ks.append("set=%d" % sum(1 for x in (f[4], f[7], f[8], f[9], f[10], f[11]) if x != "_"))
+            ks.append("auth=" + (f[10].split(":")[0] or "unset"))
+            ks.append("set=%d" % sum(1 for x in (f[4], f[7], f[8], f[9], f[10], f[11]) if x != ""))
         elif f[0] in "CA":
             ks.append("rel=" + f[0])
-        if f[0] == "H" and f[2] != "_":
+        if f[0] == "H" and f[2] != "":
             ks.append("rel=subclass")
     return ks
 
@@ -374,9 +374,9 @@ def _refs(tok):
     if f[0] in "CA":
         out.append((1, int(f[1])))
     else:
-        if f[2] != "_":
+        if f[2] != "":
             out.append((2, int(f[2])))
-        if f[3] != "_":
+        if f[3] != "":
             out.append((3, int(f[3])))
         a = f[10].split(":")
         if a[0] == "t":
@@ -423,16 +423,20 @@ def shrink_candidates(line):
         if f[0] != "H":
             continue
         for pos in (4, 7, 8, 9, 10, 11, 2):
-            if f[pos] != "_" and not (pos == 4 and f[1] in "lgp"):
-                g = list(f); g[pos] = "_"
+            if f[pos] != "" and not (pos == 4 and f[1] in "lgp"):
+                g = list(f); g[pos] = ""
                 yield " ".join(toks[:2] + hosts[:i] + ["/".join(g)] + hosts[i + 1:])
-        if f[9] not in ("_", "."):
+        if f[9] not in ("", "."):
             o = f[9].split(",")
             for j in range(len(o)):
                 g = list(f); g[9] = lst(o[:j] + o[j + 1:])
                 yield " ".join(toks[:2] + hosts[:i] + ["/".join(g)] + hosts[i + 1:])
+        a = f[10].split(":")
+        if a[0] in ("k", "l", "w", "t") and len(a[-1]) > 2:
+            g = list(f); g[10] = ":".join(a[:-1] + ["61"])
+            yield " ".join(toks[:2] + hosts[:i] + ["/".join(g)] + hosts[i + 1:])
         for pos in (4, 5, 6):
-            if f[pos] not in ("_", "-") and len(f[pos]) > 2:
+            if f[pos] not in ("", "-") and len(f[pos]) > 2:
                 g = list(f); g[pos] = "2f" if pos == 5 else "61"
                 yield " ".join(toks[:2] + hosts[:i] + ["/".join(g)] + hosts[i + 1:])
     op = toks[1].split("/")
